@@ -579,7 +579,7 @@ fn replay(ctx: &Ctx, _engine: &str, case: &Value) -> CaseResult {
 pub static C05: PropDef = PropDef {
     id: "C05",
     level: "exploration",
-    rule: "all 5x5x5 assignments of {None, Pipe, File, RcFile, Merge} to (stdin, stdout, stderr) are enumerated; around each, generated variants (quick 8, thorough 200): what the files are (regular temp file opened read-write, /dev/null, an end of a harness-made pipe), one Rc<File> or one dup'ed File shared by several streams, 1..20 repeated spawns on one thread, spawning from a fresh thread that exits afterwards. For the duration of a case the harness's own fds 0-2 are three distinct temp files. Oracle: the helper child reports for fds 0-2 (dev, ino, type), access mode and pairwise same-open-file-description probes, then sets a distinct offset on each seekable stream and writes distinct tags to 1 and 2. Expected per stream: inherit -> the harness's fd N (identity, and the child's offset/tag visible through the harness's own descriptor); pipe -> FIFO whose inode equals the Popen's handle, right direction, tag arrives; file/RcFile -> identity of the file passed and the child's offset visible through a dup the harness kept (same open file, not a re-open); merge -> same description as the other output stream's expectation. Handle exposed iff piped; stdin=Merge and stdout=stderr=Merge -> Err(LogicError), zero forks, clean descriptor audit; the harness's fds 0-2 unchanged after every spawn and after the spawning thread exited. Non-trivial = every configuration other than (None, None, None); distinct = distinct (configuration, variant) cases. In the closed-descriptor variants the files handed over in the configuration may themselves sit on the freed numbers 0-2 (opened by a parent in that state).",
+    rule: "all 5x5x5 assignments of {None, Pipe, File, RcFile, Merge} to (stdin, stdout, stderr) are enumerated; around each, generated variants (quick 8, thorough 200): what the files are (regular temp file opened read-write, /dev/null, an end of a harness-made pipe), one Rc<File> or one dup'ed File shared by several streams, 1..20 repeated spawns on one thread, spawning from a fresh thread that exits afterwards. For the duration of a case the harness's own fds 0-2 are three distinct temp files. Oracle: the helper child reports for fds 0-2 (dev, ino, type), access mode and pairwise same-open-file-description probes, then sets a distinct offset on each seekable stream and writes distinct tags to 1 and 2. Expected per stream: inherit -> the harness's fd N (identity, and the child's offset/tag visible through the harness's own descriptor); pipe -> FIFO whose inode equals the Popen's handle, right direction, tag arrives; file/RcFile -> identity of the file passed and the child's offset visible through a dup the harness kept (same open file, not a re-open); merge -> same description as the other output stream's expectation. Handle exposed iff piped; stdin=Merge and stdout=stderr=Merge -> Err(LogicError), zero forks, clean descriptor audit; the harness's fds 0-2 unchanged after every spawn and after the spawning thread exited. Non-trivial = every configuration other than (None, None, None); distinct = distinct (configuration, variant) cases. In the closed-descriptor variants the files handed over in the configuration may themselves sit on the freed numbers 0-2 (opened by a parent in that state). A further file kind gives every stream its own, separately opened handle to one and the same path (same inode, different open file descriptions).",
     assumptions: &["exhaustive over the 125 configurations; variants around each are sampled", "identity of an open file description is established by fstat plus shared-flag / shared-offset probes (kcmp is unavailable in this kernel)"],
     engines: "real",
     workers: |_| 16,
